@@ -7,13 +7,22 @@ From Coq Require Import ZArith List Bool Arith Lia.
 From XV Require Import C04.Model C04.ProofsStr C04.ProofsGhost C04.ProofsPrint C04.ProofsParse.
 Import ListNotations.
 
+(* the shape of every label *)
+Definition lab_shape (c : cfg) (p : pst) (j : nat) (ep : bool) (b : Z) (h : hint) : Prop :=
+  match eff_bhint c (use_hint_at c j ep) h with
+  | Some hs => good_hint hs /\ is_default hs = false /\ exists k, bname_of p b = render hs k
+  | None => bname_of p b = bb_name j
+  end.
+
 (* ---------- blocks: joint invariant of printer and bookkeeping ---------- *)
-Record BInvP (p : pst) (g : gst) : Prop := {
+Record BInvP (c : cfg) (p : pst) (g : gst) : Prop := {
   bp_dom : forall b, lookupZ b (p_blks p) <> None -> In b (g_bseen g);
   bp_open : forall e, In e (g_bopen g) ->
       NoDup (map (bname_of p) (ids_of e)) /\
       (forall b, In b (ids_of e) -> lookupZ b (p_blks p) <> None) /\
-      (exists pre, fst (fst e) = pre ++ snd e);
+      (exists pre, fst (fst e) = pre ++ snd e) /\
+      (forall j b h, nth_error (fst (fst e)) j = Some (b, h) -> lab_shape c p j (snd (fst e)) b h);
+  bp_seen : forall b, In b (g_bseen g) -> lookupZ b (p_blks p) <> None;
   bp_lex : forall b n, lookupZ b (p_blks p) = Some n -> lexable n = true
 }.
 
@@ -37,13 +46,20 @@ Lemma bname_stable : forall p p' b,
   lookupZ b (p_blks p) <> None -> bname_of p' b = bname_of p b.
 Proof. intros p p' b S H. unfold bname_of. rewrite S by exact H. reflexivity. Qed.
 
-Lemma BInvP_same_blks : forall p p' g, p_blks p' = p_blks p -> BInvP p g -> BInvP p' g.
+Lemma lab_shape_same : forall c p p' j ep b h, bname_of p' b = bname_of p b -> lab_shape c p j ep b h -> lab_shape c p' j ep b h.
+Proof. intros c p p' j ep b h E H. unfold lab_shape in *. rewrite E. exact H. Qed.
+
+Lemma BInvP_same_blks : forall c p p' g, p_blks p' = p_blks p -> BInvP c p g -> BInvP c p' g.
 Proof.
-  intros p p' g E [B1 B2 B3]. constructor.
+  intros c p p' g E [B1 B2 B4 B3].
+  assert (En : forall b, bname_of p' b = bname_of p b) by (intro b; unfold bname_of; rewrite E; reflexivity).
+  constructor.
   - intro b. rewrite E. apply B1.
-  - intros e He. destruct (B2 e He) as [X1 [X2 X3]]. split; [|split; [|exact X3]].
-    + erewrite map_ext; [exact X1|]. intro b. unfold bname_of. rewrite E. reflexivity.
+  - intros e He. destruct (B2 e He) as [X1 [X2 [X3 X4]]]. split; [|split; [|split; [exact X3|]]].
+    + erewrite map_ext; [exact X1|]. exact En.
     + intro b. rewrite E. apply X2.
+    + intros j b h Hn. apply (lab_shape_same c p); [apply En|apply X4; exact Hn].
+  - intro b. rewrite E. apply B4.
   - intros b n. rewrite E. apply B3.
 Qed.
 
@@ -77,76 +93,86 @@ Proof.
   intros v g g1 H. unfold g_use in H. destruct (lookupZ v (g_hints g)); [|discriminate].
   destruct (memZ v (g_closed g)); [discriminate|]. destruct (_ || _); inversion H; subst; tauto.
 Qed.
-Lemma BInvP_ghost : forall p g g1, g_bopen g1 = g_bopen g -> g_bseen g1 = g_bseen g -> BInvP p g -> BInvP p g1.
-Proof. intros p g g1 E1 E2 [B1 B2 B3]. constructor; rewrite ?E1, ?E2; assumption. Qed.
+Lemma BInvP_ghost : forall c p g g1, g_bopen g1 = g_bopen g -> g_bseen g1 = g_bseen g -> BInvP c p g -> BInvP c p g1.
+Proof. intros c p g g1 E1 E2 [B1 B2 B4 B3]. constructor; rewrite ?E1, ?E2; assumption. Qed.
 
 Lemma stepP_BInvP : forall c a p g g1,
-  act_hints_ok c a -> BInvP p g -> ws_step c a g = Some g1 -> BInvP (stepP c a p) g1.
+  act_hints_ok c a -> BInvP c p g -> ws_step c a g = Some g1 -> BInvP c (stepP c a p) g1.
 Proof.
   intros c a p g g1 Hh BI H.
-  assert (PV : forall v h g', g_bopen g' = g_bopen g -> g_bseen g' = g_bseen g -> BInvP (pv v h p) g').
-  { intros v h g' E1 E2. apply (BInvP_ghost _ g); try assumption. apply (BInvP_same_blks p); [apply pv_blks|exact BI]. }
+  assert (PV : forall v h g', g_bopen g' = g_bopen g -> g_bseen g' = g_bseen g -> BInvP c (pv v h p) g').
+  { intros v h g' E1 E2. apply (BInvP_ghost c _ g); try assumption. apply (BInvP_same_blks c p); [apply pv_blks|exact BI]. }
   destruct a as [[v h]|[v h]| |[v h]|b|ls ep|[b h] pr|[v h]| | |[v h]|[v h]]; cbn in H; cbn [stepP].
   - destruct (g_mention_b _ _ _ _ H). apply PV; assumption.
   - destruct (fx_iso_operands c).
     + destruct (g_mention_b _ _ _ _ H). apply PV; assumption.
     + inversion H; subst. exact BI.
-  - inversion H; subst. apply (BInvP_ghost _ g); try reflexivity. apply (BInvP_same_blks p); [reflexivity|exact BI].
+  - inversion H; subst. apply (BInvP_ghost c _ g); try reflexivity. apply (BInvP_same_blks c p); [reflexivity|exact BI].
   - destruct (g_mention_b _ _ _ _ H). apply PV; assumption.
   - destruct (g_bopen g) as [|[[ls ep] rem] bs] eqn:Eb; [discriminate|].
     destruct (memZ b (map fst ls) && _) eqn:Ec; [|discriminate]. inversion H; subst g1; clear H.
     apply andb_true_iff in Ec. destruct Ec as [Ec _]. apply memZ_In in Ec.
-    destruct BI as [B1 B2 B3]. destruct (B2 (ls, ep, rem)) as [_ [X _]]; [rewrite Eb; now left|].
+    destruct BI as [B1 B2 B4 B3]. destruct (B2 (ls, ep, rem)) as [_ [X _]]; [rewrite Eb; now left|].
     specialize (X b Ec). unfold pb_if_new. destruct (lookupZ b (p_blks p)); [|congruence].
     constructor; assumption.
   - destruct (nodupZ (map fst ls) && _) eqn:Ec; [|discriminate]. inversion H; subst g1; clear H.
     apply andb_true_iff in Ec. destruct Ec as [Ec1 Ec2]. apply nodupZ_NoDup in Ec1. rewrite forallb_forall in Ec2.
-    destruct BI as [B1 B2 B3]. cbn in Hh. destruct Hh as [Hh1 Hh2].
+    destruct BI as [B1 B2 B4 B3]. cbn in Hh. destruct Hh as [Hh1 Hh2].
     assert (New : forall b, In b (map fst ls) -> lookupZ b (p_blks p) = None).
     { intros b Hb. destruct (lookupZ b (p_blks p)) eqn:E; [|reflexivity]. exfalso.
       specialize (Ec2 b Hb). apply negb_true_iff in Ec2. apply memZ_false in Ec2. apply Ec2. apply B1. congruence. }
     destruct (pb_all_spec c ep ls 0 p Ec1 New Hh1) as [S1 [S2 [S3 S4]]].
+    assert (Stab : forall w, lookupZ w (p_blks p) <> None -> bname_of (pb_all c ls 0 ep p) w = bname_of p w).
+    { intros w Hw. apply bname_stable; [|exact Hw]. intros w' Hw'. apply pb_all_bstable. exact Hw'. }
     constructor; cbn [g_bseen g_bopen].
     + intros b Hb. apply pb_all_dom in Hb. apply in_or_app. destruct Hb as [Hb|Hb]; [now left|right; apply B1; exact Hb].
     + intros e [He|He].
-      * subst e. unfold ids_of. cbn [fst snd]. split; [exact S2|]. split; [exact S4|]. exists []. reflexivity.
-      * destruct (B2 e He) as [X1 [X2 X3]]. split; [|split; [|exact X3]].
-        -- erewrite map_ext_in; [exact X1|]. intros b Hb. apply bname_stable; [|apply X2; exact Hb].
-           intros w Hw. apply pb_all_bstable. exact Hw.
+      * subst e. unfold ids_of. cbn [fst snd]. split; [exact S2|]. split; [exact S4|]. split; [exists []; reflexivity|].
+        intros j b h Hn. specialize (S3 j b h Hn). cbn [Nat.add] in S3. unfold lab_shape.
+        destruct (eff_bhint c (use_hint_at c j ep) h) as [hs|] eqn:Eh; [|exact S3].
+        assert (Hbh : bhint_ok c h).
+        { rewrite Forall_forall in Hh1. apply nth_error_In in Hn. apply (Hh1 (b, h) Hn). }
+        destruct (eff_bhint_ok _ _ _ _ Hbh Eh) as [G D]. tauto.
+      * destruct (B2 e He) as [X1 [X2 [X3 X4]]]. split; [|split; [|split; [exact X3|]]].
+        -- erewrite map_ext_in; [exact X1|]. intros b Hb. apply Stab. apply X2. exact Hb.
         -- intros b Hb. rewrite pb_all_bstable by (apply X2; exact Hb). apply X2. exact Hb.
+        -- intros j b h Hn. apply (lab_shape_same c p); [|apply X4; exact Hn]. apply Stab. apply X2.
+           apply nth_error_In in Hn. apply (in_map fst) in Hn. exact Hn.
+    + intros b Hb. apply in_app_or in Hb. destruct Hb as [Hb|Hb]; [apply S4; exact Hb|].
+      rewrite pb_all_bstable by (apply B4; exact Hb). apply B4. exact Hb.
     + apply pb_all_lex; assumption.
   - destruct (g_bopen g) as [|[[ls ep] [|x rem]] bs] eqn:Eb; try discriminate.
     destruct (Z.eqb b (fst x) && hint_eqb h (snd x) && _) eqn:Ec; [|discriminate]. inversion H; subst g1; clear H.
     apply andb_true_iff in Ec. destruct Ec as [Ec _]. apply andb_true_iff in Ec. destruct Ec as [Ec _]. apply Z.eqb_eq in Ec.
-    destruct BI as [B1 B2 B3]. destruct (B2 (ls, ep, x :: rem)) as [X1 [X2 [pre X3]]]; [rewrite Eb; now left|].
+    destruct BI as [B1 B2 B4 B3]. destruct (B2 (ls, ep, x :: rem)) as [X1 [X2 [[pre X3] X4]]]; [rewrite Eb; now left|].
     cbn [fst snd] in X3.
     assert (Hb : lookupZ b (p_blks p) <> None).
     { apply X2. unfold ids_of. cbn [fst]. rewrite X3. rewrite map_app. apply in_or_app. right. left. auto. }
     assert (Ep : (if pr then pb_if_new c b h None true p else p) = p).
     { destruct pr; [|reflexivity]. unfold pb_if_new. destruct (lookupZ b (p_blks p)); [reflexivity|congruence]. }
-    rewrite Ep. constructor; cbn [g_bseen g_bopen]; [exact B1| |exact B3].
+    rewrite Ep. constructor; cbn [g_bseen g_bopen]; [exact B1| |exact B4|exact B3].
     intros e [He|He].
-    + subst e. unfold ids_of in *. cbn [fst snd] in *. split; [exact X1|]. split; [exact X2|].
+    + subst e. unfold ids_of in *. cbn [fst snd] in *. split; [exact X1|]. split; [exact X2|]. split; [|exact X4].
       exists (pre ++ [x]). rewrite X3. rewrite <- app_assoc. reflexivity.
     + apply B2. rewrite Eb. now right.
   - destruct (g_mention v h g) as [gm|] eqn:Em; [|discriminate].
     destruct (g_mention_b _ _ _ _ Em). destruct (g_define_b _ _ _ H). apply PV; congruence.
   - destruct (g_open g) as [|o [|o2 os]]; try discriminate.
     destruct (g_bopen g) as [|[[ls ep] [|x rem]] bs] eqn:Eb; try discriminate. inversion H; subst g1; clear H.
-    destruct BI as [B1 B2 B3]. constructor; cbn [g_bseen g_bopen]; [exact B1| |exact B3].
+    destruct BI as [B1 B2 B4 B3]. constructor; cbn [g_bseen g_bopen]; [exact B1| |exact B4|exact B3].
     intros e He. apply B2. rewrite Eb. now right.
   - destruct (g_frames g) as [|f [|f2 fs]]; try discriminate. destruct (forallb _ f); [|discriminate].
-    inversion H; subst. apply (BInvP_ghost _ g); try reflexivity. apply (BInvP_same_blks p); [|exact BI].
+    inversion H; subst. apply (BInvP_ghost c _ g); try reflexivity. apply (BInvP_same_blks c p); [|exact BI].
     unfold p_exit. destruct (p_rest p); reflexivity.
-  - destruct (g_use_b _ _ _ H). apply (BInvP_ghost _ g); assumption.
-  - destruct (g_define_b _ _ _ H). apply (BInvP_ghost _ g); assumption.
+  - destruct (g_use_b _ _ _ H). apply (BInvP_ghost c _ g); assumption.
+  - destruct (g_define_b _ _ _ H). apply (BInvP_ghost c _ g); assumption.
 Qed.
 
-Lemma BInvP_0 : BInvP pst0 g0.
-Proof. constructor; cbn; [tauto|intros e []|discriminate]. Qed.
+Lemma BInvP_0 : forall c, BInvP c pst0 g0.
+Proof. intro c. constructor; cbn; [tauto|intros e []|intros b []|discriminate]. Qed.
 
 Lemma runP_BInvP : forall c l p g g1,
-  hints_ok c l -> BInvP p g -> ws_run c l g = Some g1 -> BInvP (runP c l p) g1.
+  hints_ok c l -> BInvP c p g -> ws_run c l g = Some g1 -> BInvP c (runP c l p) g1.
 Proof.
   induction l as [|a l IH]; intros p g g1 Hh BI H; cbn in H.
   - inversion H; subst. exact BI.
@@ -164,7 +190,7 @@ Proof.
   - eapply names_unique_values; eauto.
   - subst l. intros e He.
     assert (Hpre : hints_ok c pre) by (unfold hints_ok in *; apply Forall_app in Hh; tauto).
-    pose proof (runP_BInvP c pre pst0 g0 g1 Hpre BInvP_0 Hp) as [B1 B2 B3].
+    pose proof (runP_BInvP c pre pst0 g0 g1 Hpre (BInvP_0 c) Hp) as [B1 B2 B4 B3].
     destruct (B2 e He) as [X1 [X2 _]].
     erewrite map_ext_in; [exact X1|]. intros b Hb. rewrite runP_app. apply bname_stable; [|apply X2; exact Hb].
     intros w Hw'. apply runP_stable. exact Hw'.
@@ -182,7 +208,7 @@ Proof.
       by (rewrite <- app_assoc; reflexivity). apply Forall_app in Hh. tauto. }
   assert (Hw : ws_run c (pre ++ [Arbegin ls ep]) g0 = Some g2).
   { rewrite ws_run_app. rewrite H1. cbn [ws_run]. rewrite H2. reflexivity. }
-  pose proof (runP_BInvP c _ pst0 g0 g2 Hpre BInvP_0 Hw) as [B1 B2 B3].
+  pose proof (runP_BInvP c _ pst0 g0 g2 Hpre (BInvP_0 c) Hw) as [B1 B2 B4 B3].
   assert (He : In (ls, ep, ls) (g_bopen g2)).
   { cbn in H2. destruct (_ && _); [|discriminate]. inversion H2; subst. cbn. now left. }
   destruct (B2 _ He) as [X1 [X2 _]]. unfold ids_of in X1, X2. cbn [fst] in X1, X2.
@@ -191,12 +217,6 @@ Proof.
   intros w Hw'. apply runP_stable. exact Hw'.
 Qed.
 
-(* the shape of every label *)
-Definition lab_shape (c : cfg) (p : pst) (j : nat) (ep : bool) (b : Z) (h : hint) : Prop :=
-  match eff_bhint c (use_hint_at c j ep) h with
-  | Some hs => good_hint hs /\ is_default hs = false /\ exists k, bname_of p b = render hs k
-  | None => bname_of p b = bb_name j
-  end.
 
 Theorem label_shapes : forall c l pre ls ep post g1 g2,
   hints_ok c l -> l = pre ++ Arbegin ls ep :: post ->
@@ -207,7 +227,7 @@ Proof.
   assert (Hpre : hints_ok c pre) by (unfold hints_ok in *; apply Forall_app in Hh; tauto).
   assert (Ha : act_hints_ok c (Arbegin ls ep)).
   { unfold hints_ok in Hh. apply Forall_app in Hh. destruct Hh as [_ Hh]. inversion Hh; assumption. }
-  pose proof (runP_BInvP c pre pst0 g0 g1 Hpre BInvP_0 H1) as [B1 B2 B3].
+  pose proof (runP_BInvP c pre pst0 g0 g1 Hpre (BInvP_0 c) H1) as [B1 B2 B4 B3].
   cbn in H2. destruct (nodupZ (map fst ls) && _) eqn:Ec; [|discriminate].
   apply andb_true_iff in Ec. destruct Ec as [Ec1 Ec2]. apply nodupZ_NoDup in Ec1. rewrite forallb_forall in Ec2.
   set (p := runP c pre pst0) in *.
